@@ -3,6 +3,7 @@ package main
 // Profile "burn" (C07) and the fee monitor (C15).
 
 import (
+	aoltypes "github.com/medibloc/panacea-core/v2/x/aol/types"
 	"fmt"
 	"strings"
 
@@ -103,10 +104,74 @@ func (m *burnMonitor) AfterBlock(x *Exec) {
 
 // feeMonitor (C15): a transaction made only of custom-module messages moves exactly the fee, from the fee payer
 // (first signer; for AddRecord with a named fee payer: that address) to the fee collector; supply unchanged
-type feeMonitor struct{}
+type feeMonitor struct{ view string }
 
-func (m *feeMonitor) BeforeTx(x *Exec, tx *TxInfo) {}
+// keeperView: what the keepers themselves answer (in the deliver state) about every object the transaction's custom
+// messages name — topics, writers, owners' counters, DID entries, denoms, tokens.  If a transaction is not accepted,
+// this view must be what it was before (C15: none of its messages has any effect) — also when the raw store is unchanged,
+// e.g. because a keeper remembers something outside the store.
+func keeperView(x *Exec, tx *TxInfo) (view string) {
+	defer func() {
+		if e := recover(); e != nil {
+			view = fmt.Sprintf("panic: %v", e)
+		}
+	}()
+	ctx := x.C.Ctx()
+	var sb strings.Builder
+	addr := func(s string) string {
+		a, err := sdk.AccAddressFromBech32(s)
+		if err != nil || len(a) == 0 || len(a) > 255 {
+			return ""
+		}
+		return string(a)
+	}
+	for _, pm := range tx.Msgs {
+		a := pm.Args
+		switch pm.Kind {
+		case "aol.CreateTopic", "aol.AddWriter", "aol.DeleteWriter", "aol.AddRecord":
+			ownerS := a[len(a)-1]
+			writerS := ""
+			switch pm.Kind {
+			case "aol.AddWriter":
+				writerS = a[3]
+			case "aol.DeleteWriter":
+				writerS = a[1]
+			case "aol.AddRecord":
+				ownerS, writerS = a[4], a[3]
+			}
+			o := addr(ownerS)
+			if o == "" || len(a[0]) > 255 {
+				continue
+			}
+			tk := aoltypes.TopicCompositeKey{OwnerAddress: sdk.AccAddress(o), TopicName: a[0]}
+			fmt.Fprintf(&sb, "topic %x/%s: %v %v | owner: %v |", o, a[0], x.C.App.AolKeeper.HasTopic(ctx, tk), x.C.App.AolKeeper.GetTopic(ctx, tk), x.C.App.AolKeeper.GetOwner(ctx, aoltypes.OwnerCompositeKey{OwnerAddress: sdk.AccAddress(o)}))
+			if w := addr(writerS); w != "" {
+				wk := aoltypes.WriterCompositeKey{OwnerAddress: sdk.AccAddress(o), TopicName: a[0], WriterAddress: sdk.AccAddress(w)}
+				fmt.Fprintf(&sb, " writer %x: %v %v |", w, x.C.App.AolKeeper.HasWriter(ctx, wk), x.C.App.AolKeeper.GetWriter(ctx, wk))
+			}
+		case "did.Create", "did.Update", "did.Deactivate":
+			e := x.C.App.DidKeeper.GetDIDDocument(ctx, a[0])
+			bz, _ := e.Marshal()
+			fmt.Fprintf(&sb, "did %s: %x |", a[0], bz)
+		case "pnft.CreateDenom", "pnft.UpdateDenom", "pnft.DeleteDenom", "pnft.TransferDenom":
+			d, err := x.C.App.PnftKeeper.GetDenom(ctx, a[0])
+			fmt.Fprintf(&sb, "denom %q: %v %v |", a[0], d, err != nil)
+		case "pnft.Mint", "pnft.Transfer", "pnft.Burn":
+			d, err := x.C.App.PnftKeeper.GetDenom(ctx, a[0])
+			p, err2 := x.C.App.PnftKeeper.GetPNFT(ctx, a[0], a[1])
+			fmt.Fprintf(&sb, "denom %q: %v %v token %q: %v %v |", a[0], d, err != nil, a[1], p, err2 != nil)
+		}
+	}
+	return sb.String()
+}
+
+func (m *feeMonitor) BeforeTx(x *Exec, tx *TxInfo) { m.view = keeperView(x, tx) }
 func (m *feeMonitor) AfterTx(x *Exec, tx *TxInfo, result string) {
+	if !strings.HasPrefix(result, "R ok") && !strings.HasPrefix(result, "R builderr") {
+		if after := keeperView(x, tx); after != m.view {
+			x.Flag("C15-atomic", "a transaction that was not accepted ("+result+") changed what the keepers answer about the objects it names")
+		}
+	}
 	for _, pm := range tx.Msgs {
 		if !(strings.HasPrefix(pm.Kind, "aol.") || strings.HasPrefix(pm.Kind, "did.") || strings.HasPrefix(pm.Kind, "pnft.")) {
 			return
